@@ -110,8 +110,8 @@ def run_driver_lines(path):
             if d: diffs.append(d)
             else: bad.append(l)
         elif l.startswith('GROUP '):
-            m = re.match(r'GROUP (\S+) (\S+) n=(\d+) modeldiff=(\d+) specdiff=(\d+)', l)
-            if m: groups[m.group(1) + ' ' + m.group(2)] = dict(n=int(m.group(3)), modeldiff=int(m.group(4)), specdiff=int(m.group(5)))
+            m = re.match(r'GROUP (\S+) (\S+) n=(\d+) modeldiff=(\d+) specdiff=(\d+) printed=(\d+)', l)
+            if m: groups[m.group(1) + ' ' + m.group(2)] = dict(n=int(m.group(3)), modeldiff=int(m.group(4)), specdiff=int(m.group(5)), printed=int(m.group(6)))
         elif l.startswith('SUMMARY '):
             summ = {k: int(v) for k, v in re.findall(r'(\w+)=(\d+)', l)}
         elif l.startswith('BAD '):
@@ -243,6 +243,9 @@ def run(tier, seed):
                 unexplained.append('driver lines run failed: ' + err)
             else:
                 diffs += corr['diffs']
+                for gk, g in corr['groups'].items():
+                    if g['printed'] >= 1000000:
+                        unexplained.append('more than 10^6 disagreeing lines for %s: the listing was truncated, not every disagreement was classified' % gk)
                 if corr['bad']: unexplained.append('driver could not interpret %d harness line(s): %s' % (len(corr['bad']), corr['bad'][0][:200]))
                 log('correspondence (lines):', corr['summary'])
             with open(lines_path) as f:
